@@ -153,6 +153,42 @@ def p_cls_is(I, a, n):
     return mk_bool((obj.cls or '') == s)
 
 
+def _events(I):
+    if I.path.events is None:
+        lt = TY.list_theory(TY.Obj)
+        e0 = z3.Const(I.path.fresh_name('events0'), lt.sort)
+        I.path.events = I.path.events0 = SV('slist', e0, extra={'elem': ('rec', ['Parameter'])})
+    return I.path.events
+
+
+def p_events(I, a, n):
+    """ghost: the objects on which functions with an `emits` contract have been called so far, in call order"""
+    return _events(I)
+
+
+def p_events0(I, a, n):
+    """ghost: that list when the function (or the call being summarised) started"""
+    _events(I)
+    return I.path.events0
+
+
+def p_lcat(I, a, n):
+    x, y = a
+    if x.kind != 'slist' or y.kind != 'slist':
+        raise OutOfSubset("lcat() of non-symbolic lists")
+    lt = TY.list_theory(TY.smt_sort(x.extra['elem']))
+    return SV('slist', lt.lcat(x.t, y.t), extra={k: v for k, v in x.extra.items() if k != 'backref'})
+
+
+def p_keys_of(I, a, n):
+    """the names of the items of a packet, in insertion order"""
+    from .objects import odict_of
+    od = odict_of(I, a[0])
+    if od is None:
+        raise OutOfSubset(f"keys_of() on {a[0].kind}")
+    return SV('slist', od.t['keys'], extra={'elem': 'str'})
+
+
 def p_warned(I, a, n):
     return mk_bool(len(I.path.warn_log) > 0)
 
@@ -207,4 +243,4 @@ def p_src_R(I, a, n):
 PRIMS = {'cap': p_cap, 'comparable': p_comparable, 'coerce_like': p_coerce_like, 'coercible': p_coercible, 'src_T': p_src_T, 'src_R': p_src_R, 'be': p_be, 'le': p_le, 'sl': p_sl, 'cat': p_cat, 'low': p_low, 'shr': p_shr, 'pow2': p_pow2, 'tb': p_tb,
          'tl': p_tl, 'bat': p_bat, 'rpow': p_rpow, 'rpow2': p_rpow2, 'bfind': p_bfind, 'band': p_band, 'bor': p_bor,
          'toreal': p_toreal, 'i2r': p_toreal, 'at': p_at, 'append': p_append, 'is_int_valued': p_is_int_valued,
-         'decode': p_decode, 'decodable': p_decodable, 'cls_is': p_cls_is, 'warned': p_warned, 'mset': p_mset, 'mdel': p_mdel}
+         'decode': p_decode, 'decodable': p_decodable, 'cls_is': p_cls_is, 'warned': p_warned, 'mset': p_mset, 'mdel': p_mdel, 'keys_of': p_keys_of, 'events': p_events, 'events0': p_events0, 'lcat': p_lcat}
